@@ -593,6 +593,7 @@ type FuncSpec struct {
 	Holds       []HoldClause // goroutine: thread-local ghost permissions it starts with (transferred from the spawner)
 	CloseGuards [][2]string  // `closeguard ch wg`: channel variable ch is closed only after wg.Wait()
 	NeverClosed []string     // `neverclosed ch`: channel variable ch is never closed
+	NonBlocking []string     // `nonblocking ch`: every send on channel variable ch finds a free buffer slot
 	OnSend     []*Clause // obligations at every channel send of the function (`value` is what is sent)
 	Preserves []*Clause // closure contracts: requires + ensures + carried across extern calls that take the closure as a callback
 	Chooses   []ChooseClause // witnesses of existential postconditions of callees
@@ -696,7 +697,7 @@ func newSpecSet() *SpecSet {
 var clauseKeywords = map[string]bool{"func": true, "requires": true, "ensures": true, "modifies": true,
 	"loop": true, "inline": true, "props": true, "arith": true, "pure": true, "function": true, "writes": true,
 	"type": true, "spec": true, "lemma": true, "global": true, "trusted": true, "ghost": true, "allocs": true,
-	"skip": true, "end": true, "uses": true, "ghostvar": true, "prove": true, "claim": true, "given": true, "ghostparam": true, "callghost": true, "access": true, "callreq": true, "afterwait": true, "lockinv": true, "guarantee": true, "assumes": true, "choose": true, "ghostinit": true, "preserves": true, "ghostset": true, "onsend": true, "holds": true, "closeguard": true, "neverclosed": true}
+	"skip": true, "end": true, "uses": true, "ghostvar": true, "prove": true, "claim": true, "given": true, "ghostparam": true, "callghost": true, "access": true, "callreq": true, "afterwait": true, "lockinv": true, "guarantee": true, "assumes": true, "choose": true, "ghostinit": true, "preserves": true, "ghostset": true, "onsend": true, "holds": true, "closeguard": true, "neverclosed": true, "nonblocking": true}
 
 // specLines extracts the //@ payload lines of a Go file, or all lines of a
 // .spec file.
@@ -1031,7 +1032,12 @@ func (ss *SpecSet) parseFile(path, pkg string) error {
 			if err != nil {
 				return fail(err)
 			}
-			tf := strings.SplitN(f[0], ".", 2)
+			// the type may be qualified by its package (pkg.Type.field)
+			li := strings.LastIndex(f[0], ".")
+			tf := []string{f[0][:li], f[0][li+1:]}
+			if k := strings.LastIndex(tf[0], "."); k >= 0 {
+				tf[0] = tf[0][k+1:]
+			}
 			cur.Access = append(cur.Access, AccessRule{Type: tf[0], Field: tf[1], Write: f[1] == "write", Cond: e, Src: rest, Line: where})
 		case "callreq":
 			f := strings.Fields(rest)
@@ -1061,7 +1067,7 @@ func (ss *SpecSet) parseFile(path, pkg string) error {
 		case "holds":
 			{
 				// holds wgtok(<expr>) <n>
-				m := regexp.MustCompile(`^(wgtok|wgst|mayclose)\((.*)\)\s+([0-9]+)$`).FindStringSubmatch(strings.TrimSpace(rest))
+				m := regexp.MustCompile(`^(wgtok|wgst|mayclose|chcredit)\((.*)\)\s+([0-9]+)$`).FindStringSubmatch(strings.TrimSpace(rest))
 				if m == nil {
 					return fail(fmt.Errorf("holds wgtok|wgst|mayclose(<expr>) <n>"))
 				}
@@ -1079,6 +1085,14 @@ func (ss *SpecSet) parseFile(path, pkg string) error {
 					return fail(fmt.Errorf("closeguard <channel variable> <WaitGroup variable>"))
 				}
 				cur.CloseGuards = append(cur.CloseGuards, [2]string{f[0], f[1]})
+			}
+		case "nonblocking":
+			{
+				f := strings.Fields(rest)
+				if len(f) != 1 {
+					return fail(fmt.Errorf("nonblocking <channel variable>"))
+				}
+				cur.NonBlocking = append(cur.NonBlocking, f[0])
 			}
 		case "neverclosed":
 			{
